@@ -82,6 +82,10 @@ pub enum Signal {
     /// the Noise sequence of channel `ch + offset`, with NaN in every 7th sample of the LAST
     /// channel `last` (only used on multi-channel objects: the other channels must not notice)
     NoisePoisonLast(usize),
+    /// the Noise sequence of channel `ch + offset` scaled by 2^-1040 (peak 8.5e-314): every
+    /// sample and every product with a filter coefficient is a subnormal f64, so a floating-point
+    /// mode that flushes subnormals (left behind on the thread by someone else) shows
+    NoiseSubnormalCh(usize),
 }
 
 pub fn splitmix(mut x: u64) -> u64 {
@@ -103,6 +107,7 @@ impl Signal {
             Signal::Zero => 0.0,
             Signal::NoiseCh(off) => Signal::Noise.at(ch + off, n),
             Signal::NoiseQuiet => Signal::Noise.at(ch, n) * (2.0f64).powi(-26),
+            Signal::NoiseSubnormalCh(off) => Signal::Noise.at(ch + off, n) * (2.0f64).powi(-1040),
             Signal::NoisePoisonLast(last) => {
                 if ch == *last && n % 7 == 3 {
                     f64::NAN
